@@ -238,3 +238,23 @@ Definition py_strip_exp0 (s : pystr) : pystr := s.
 (** ** helper.datetime_normalize(truncate_datetime, obj, default_timezone=...) (not part of the fragment:
     YModel.norm_any; never raises since /repo 1c8f0f8) *)
 Definition py_datetime_normalize (F : opts) (a : atom) : res atom := norm_any F a.
+
+(** ** _diff_str *)
+(* type(a) == type(b) *)
+Definition py_type_eq (a b : atom) : bool := ty_eqb (atom_ty a) (atom_ty b).
+(* a == b on atoms *)
+Definition py_eqv (a b : atom) : bool := negb (py_ne a b).
+(* try: x = b.decode('ascii') / except UnicodeDecodeError: ...  - Some: decoded, None: the handler runs *)
+Definition py_try_decode_ascii (a : atom) : res (option atom) :=
+  match a with ABytes s => Ok (if is_ascii s then Some (AStr s) else None) | _ => Err EAttr end.
+(* sub in x for a str x (False for anything else: the fragment asks it only of strs - behind do_diff / isinstance(_, str)) *)
+Definition py_str_in (sub : pystr) (a : atom) : bool :=
+  match a with AStr s => contains_sub sub s | _ => false end.
+(* difflib.unified_diff(x.splitlines(), y.splitlines(), lineterm='') followed by list(...) and '\n'.join(...): the oracle
+   [udiff] of the hand model on the two texts (the empty text stands for the empty list of lines); .splitlines() of a
+   non-str raises AttributeError *)
+Definition py_unified_diff (udiff : pystr -> pystr -> pystr) (x y : atom) : res pystr :=
+  match x, y with AStr s, AStr t => Ok (udiff s t) | _, _ => Err EAttr end.
+Definition py_nonempty (s : pystr) : bool := match s with [] => false | _ => true end.
+(* level.additional['diff'] = text *)
+Definition lv_set_diff (l : plevel) (d : option pystr) : plevel := mkLv (lv_t1 l) (lv_t2 l) (lv_p1 l) (lv_p2 l) d.
